@@ -26,6 +26,8 @@ C("mako.runtime:Context.__init__",
            ("kwargs-are-the-arguments", "self._kwargs == old(data)"),
            ("kwargs-is-a-copy", "not same(self._kwargs, self._data) and fresh(self._kwargs)"),
            ("data-has-arguments", "forall(lambda k: implies(k in old(data) and k != 'capture' and k != 'caller', k in self._data and same(self._data[k], old(data)[k])), ty='Str')"),
+           ("data-has-nothing-else", "forall(lambda k: (k in self._data) == (k in old(data) or k == 'capture' or k == 'caller'), ty='Str')"),
+           ("unicode-flag", "self._outputting_as_unicode is None"),
            ("caller-stack", "fresh(self.caller_stack) and len(self.caller_stack) == 0 and self.caller_stack.nextcaller is None"),
            ("caller-in-data", "'caller' in self._data and same(self._data['caller'], self.caller_stack)"),
            ("capture-in-data", "'capture' in self._data"),
@@ -64,6 +66,7 @@ C("mako.runtime:Context._copy",
            ("shares-namespaces", "same(result.namespaces, self.namespaces)"),
            ("shares-kwargs", "same(result._kwargs, self._kwargs)"),
            ("same-template", "same(result._with_template, self._with_template)"),
+           ("same-unicode-flag", "same(result._outputting_as_unicode, self._outputting_as_unicode)"),
            ("data-copied", "result._data == self._data and fresh(result._data)"),
            ("self-untouched", "self._data == old(self._data) and self._kwargs == old(self._kwargs)")],
   props=["C04", "C07"])
